@@ -52,7 +52,7 @@ let dump c =
 
 let vk = function
   | V_tcp_cookie -> "tcp_cookie" | V_cookie_missing -> "cookie_missing" | V_malformed_req -> "malformed_req"
-  | V_client_unstable -> "client_unstable" | V_echo -> "echo_not_latest" | V_supported_accepts -> "supported_accepts"
+  | V_source_shared -> "source_shared" | V_client_unstable -> "client_unstable" | V_echo -> "echo_not_latest" | V_supported_accepts -> "supported_accepts"
   | V_mismatch_accepted -> "mismatch_accepted" | V_valid_dropped -> "valid_dropped" | V_badcookie -> "badcookie"
   | V_badcookie_bound -> "badcookie_bound" | V_unsup_dropped -> "unsup_dropped"
 
@@ -131,6 +131,7 @@ let () =
   let cases = read_lines Sys.argv.(1) in
   let impl = impl_table Sys.argv.(2) in
   let kinds_total = Hashtbl.create 16 in
+  let mv6 : (int, int) Hashtbl.t = Hashtbl.create 16 in
   List.iteri (fun k line ->
     match String.index_opt line '|' with
     | None -> Printf.printf "CASE %d trivial-badcase\n" k
@@ -149,6 +150,7 @@ let () =
       let ub = ref false and diffs = ref [] and fails = ref [] in
       let n_sup = ref 0 and n_unsup = ref 0 and n_bad = ref 0 and n_rot = ref 0 and n_regress = ref 0 and n_live = ref 0 and n_tcp = ref 0 in
       let last_client = ref "" in
+      let last_ip = ref "" and n_mv4 = ref 0 and n_mv6 = ref 0 and n_mvx = ref 0 in
       List.iteri (fun idx step ->
         if not !ub then begin
           let il = (match Hashtbl.find_opt itbl idx with Some l -> l | None -> "<missing>") in
@@ -164,6 +166,23 @@ let () =
                 | OIgnored -> ()
                 | OApply (tcp, _, r, _) ->
                   incr n_live; if tcp then incr n_tcp;
+                  (* source-address changes between cookie-bearing transmissions, by kind; for IPv6 the
+                     first byte position that differs is counted (STAT mv6_byte<k>) *)
+                  (match r, field step "ip" with
+                   | OptCookie _, Some ip when not tcp ->
+                     let o = !last_ip in
+                     if o <> "" && o <> ip && String.length o > 1 && String.length ip > 1 then begin
+                       if o.[0] = '4' && ip.[0] = '4' then incr n_mv4
+                       else if o.[0] = '6' && ip.[0] = '6' then begin
+                         incr n_mv6;
+                         let a = unhex (String.sub o 2 (String.length o - 2)) and b = unhex (String.sub ip 2 (String.length ip - 2)) in
+                         let rec first i la lb = match la, lb with x :: ra, y :: rb -> if x <> y then i else first (i + 1) ra rb | _ -> i in
+                         let kpos = first 0 a b in
+                         Hashtbl.replace mv6 kpos (1 + (try Hashtbl.find mv6 kpos with Not_found -> 0))
+                       end else incr n_mvx
+                     end;
+                     last_ip := ip
+                   | _ -> ());
                   (match r with OptCookie c ->
                      let cp = hex_of_bytes (take 8 c) in
                      if !last_client <> "" && !last_client <> cp then incr n_rot; last_client := cp
@@ -189,7 +208,7 @@ let () =
       let cls =
         if !ub then "model-ub"
         else if !n_live < 2 then "trivial"
-        else Printf.sprintf "ck%s%s%s%s%s%s" (if !n_sup > 0 then "+sup" else "") (if !n_unsup > 0 then "+unsup" else "")
+        else Printf.sprintf "ck%s%s%s%s%s%s%s%s%s" (if !n_mv4 > 0 then "+mv4" else "") (if !n_mv6 > 0 then "+mv6" else "") (if !n_mvx > 0 then "+mvx" else "") (if !n_sup > 0 then "+sup" else "") (if !n_unsup > 0 then "+unsup" else "")
             (if !n_bad > 0 then "+badcookie" else "") (if !n_rot > 0 then "+rot" else "") (if !n_regress > 0 then "+regress" else "")
             (if !n_tcp > 0 then "+tcp" else "") in
       Printf.printf "CASE %d %s\n" k cls;
@@ -203,4 +222,5 @@ let () =
             Printf.printf "FAIL %d %s %s\n" k kind d
           end) (List.rev !fails)
       end) cases;
-  Hashtbl.iter (fun kind n -> Printf.printf "STAT fail_%s %d\n" kind n) kinds_total
+  Hashtbl.iter (fun kind n -> Printf.printf "STAT fail_%s %d\n" kind n) kinds_total;
+  Hashtbl.iter (fun kpos n -> Printf.printf "STAT mv6_byte%02d %d\n" kpos n) mv6
